@@ -122,7 +122,7 @@ def run_history(ctx, rng, script=None):
         for _step in range(n_steps):
             def gen_op():
                 op = rng.choice(['ctor', 'add', 'radd', 'iadd', 'iadd', 'self_iadd', 'join', 'idx', 'slice', 'slice',
-                                 'fixed', 'fmt', 'fmt', 'leaf'])
+                                 'fixed', 'fmt', 'fmt', 'leaf', 'iadd_inplace', 'add_empty'])
                 a, b = choose(len(pool)), choose(len(pool))
                 rec = [op, a, b]
                 la = len(pool[a][1])
@@ -138,7 +138,7 @@ def run_history(ctx, rng, script=None):
                     rec.extend([rng.choice(bounds), rng.choice(bounds),
                                 rng.choice([None, None, None, 1, 2, -1, 3])])
                 elif op == 'fixed':
-                    rec.append(rng.randint(0, la + 3))
+                    rec.append(rng.randint(0, la + 3) if rng.random() < 0.7 else la)
                 elif op == 'fmt':
                     fill = rng.choice(['', '', '*', '0', ' ', '<', 'x', '-'])
                     al = rng.choice(['<', '>', '^']) if fill else rng.choice(['', '<', '>', '^'])
@@ -172,6 +172,28 @@ def run_history(ctx, rng, script=None):
                         continue
                     r = "pq" + b
                     mr = [('p', sgr.DEFAULT), ('q', sgr.DEFAULT)] + mb
+                elif op == 'add_empty':
+                    if not is_text(a):
+                        continue
+                    r = a + (["", CHText(), CHText(""), fmts()[rec[2] % len(FMT_SPECS)][0] or (lambda t: t)][rec[2] % 4])("") \
+                        if rec[2] % 4 == 3 else a + ["", CHText(), CHText("")][rec[2] % 4]
+                    mr = list(ma)
+                elif op == 'iadd_inplace':
+                    # a text of the pool itself is extended in place: every OTHER text of the pool (results of
+                    # earlier operations on it included) must keep showing what it showed - a str never changes
+                    if not isinstance(a, CHText):
+                        continue
+                    x = a
+                    x += b
+                    ma = ma + (mb if rec[1] != rec[2] else ma[:len(ma)])
+                    pool[rec[1]] = (x, ma)
+                    ctx.count("in_place_extensions_of_pool_texts")
+                    for k, (o, mo) in enumerate(pool):
+                        if is_text(o) and sgr.cells(str(o)) != mo:
+                            fail("in-place-extension-changed-another-text" if k != rec[1] else "character-colour-differs",
+                                 {"op": rec, "text_no": k, "shows": o.plain_text()[:60],
+                                  "expected": "".join(c for c, _ in mo)[:60]})
+                    continue
                 elif op == 'self_iadd':
                     if not isinstance(a, CHText):
                         continue
@@ -321,6 +343,13 @@ def run_history(ctx, rng, script=None):
                     fail("chunk-vs-str-equality-ignores-colour", {"op": rec, "text": text})
                 if not (rt == r and r == rt):
                     fail("text-differs-from-its-only-chunk", {"op": rec, "text": text})
+            if not mr:
+                # texts that show nothing are equal, whatever they are made of
+                ctx.count("equality_probes", 4)
+                for f, _ in fmts()[:3]:
+                    empty = f("") if f is not None else CHText("")
+                    if not (rt == empty and empty == rt) or rt != empty:
+                        fail("empty-texts-compare-unequal", {"op": rec, "other": type(empty).__name__})
             if mr and canon == CHText(text + "~"):
                 fail("different-texts-compare-equal", {"op": rec})
             pool.append((r, mr))
